@@ -398,11 +398,11 @@ package restful
 //@ nopanic
 //@ loop 0 invariant fresh: fresh(methods)
 //@ loop 0 invariant S/sound: forall(0, len(methods), func(m int) bool { return exists(0, len(c.webServices), func(i int) bool { return svcAllows(c.webServices[i], requestPath, methods[m]) }) })
-//@ loop 0 invariant K.C/complete: forall(0, it_i, func(i int) bool { return forallStr(func(me string) bool { return svcAllows(c.webServices[i], requestPath, me) ==> exists(0, len(methods), func(m int) bool { return methods[m] == me }) }) })
+//@ loop 0 invariant K/complete: forall(0, it_i, func(i int) bool { return forallStr(func(me string) bool { return svcAllows(c.webServices[i], requestPath, me) ==> exists(0, len(methods), func(m int) bool { return methods[m] == me }) }) })
 //@ loop 1 invariant fresh: fresh(methods)
 //@ loop 1 invariant member: it_o < len(c.webServices) && ws == c.webServices[it_o] && jsrSvcHit(ws, requestPath) && finalMatch == jsrFinal(ws, requestPath)
 //@ loop 1 invariant S/sound: forall(0, len(methods), func(m int) bool { return exists(0, len(c.webServices), func(i int) bool { return svcAllows(c.webServices[i], requestPath, methods[m]) }) })
-//@ loop 1 invariant K.C/complete: forall(0, it_o, func(i int) bool { return forallStr(func(me string) bool { return svcAllows(c.webServices[i], requestPath, me) ==> exists(0, len(methods), func(m int) bool { return methods[m] == me }) }) })
+//@ loop 1 invariant K/complete: forall(0, it_o, func(i int) bool { return forallStr(func(me string) bool { return svcAllows(c.webServices[i], requestPath, me) ==> exists(0, len(methods), func(m int) bool { return methods[m] == me }) }) })
 //@ loop 1 invariant K/partial: forall(0, it_i, func(j int) bool { return jsrRouteHit(ws.routes[j], finalMatch) ==> exists(0, len(methods), func(m int) bool { return methods[m] == ws.routes[j].Method }) })
 
 //@ func (*CrossOriginResourceSharing).doPreflightRequest
@@ -462,13 +462,68 @@ package restful
 // template token has a verb itself, and its stem is what precedes that suffix.
 //@ axiom verb-suffix: forallStr(func(rt string) bool { return forallStr(func(qt string) bool { return hasVerb(rt) && strings.HasSuffix(qt, ":"+verbOf(rt)) ==> hasVerb(qt) && stemOf(qt) == qt[:len(qt)-len(verbOf(rt))-1] }) })
 
+// joining a token slice equals joining the path's own tokens
+//@ lemma C04.join-bridge
+//@ props C04
+//@ forall Q []string, p string, k int, d int
+//@ requires def.d: d == len(Q) - k
+//@ requires isTokens(Q, p) && 0 <= k
+//@ ensures joinFrom(Q, k) == joinFromP(p, k)
+//@ induction d general
+//@ trigger joinFrom(Q, k), joinFromP(p, k)
+
+// a {name:*} token is recognised by the text between ":" and the closing brace
+//@ lemma C04.tail-form
+//@ props C04
+//@ forall t string
+//@ requires wfTok0(t) && strings.Index(t, "{") > -1 && strings.Index(t, ":") != -1 && t[strings.Index(t, ":")+1:len(t)-1] == "*"
+//@ ensures isTailTok(t)
+//@ trigger isTailTok(t)
+
+// shape of a plain {name}suffix token: the brace opens the token, the literal suffix is what follows the closing brace
+//@ lemma C04.plain-form
+//@ props C04
+//@ forall t string
+//@ requires wfTok0(t) && strings.Index(t, "{") > -1 && strings.Index(t, ":") == -1
+//@ ensures strings.Index(t, "{") == 0 && strings.Index(t, "}") >= 1 && len(suffixOfTok(t)) == len(t)-strings.Index(t, "}")-1
+//@ trigger suffixOfTok(t)
+
+//@ lemma C04.tail-form-rev
+//@ props C04
+//@ forall t string
+//@ requires isTailTok(t)
+//@ ensures strings.Index(t, ":") != -1 && t[strings.Index(t, ":")+1:len(t)-1] == "*"
+//@ trigger isTailTok(t)
+
+// ... and a well-formed template has it only in the last position
+//@ lemma C04.tail-last
+//@ props C04
+//@ forall R []string, hv bool, k int
+//@ requires wfTemplate(R, hv) && 0 <= k && k < len(R) && isTailTok(effTok(R[k], hv))
+//@ ensures k == len(R)-1
+
 //@ func (defaultPathProcessor).ExtractParameters
 //@ props C02 C04 C14 C18 C19
+//@ uses N/C04.tail-form
+//@ uses V/C04.tail-form
+//@ uses V/C04.tail-form-rev
+//@ uses C04.plain-form
+//@ uses V/C04.join-bridge
+//@ opt opaque isTailTok suffixOfTok
 //@ implements iface:PathProcessor.ExtractParameters
 //@ requires r != nil
+// C04: exactly the declared names are bound
+//@ ensures N/bound: forall(0, len(r.pathParts), func(k int) bool { return bindsAt(r.pathParts, k, r.hasCustomVerb) ==> strMapHas(result, nameAt(r.pathParts, k, r.hasCustomVerb)) })
+//@ ensures N/only: forallStr(func(n string) bool { return strMapHas(result, n) ==> exists(0, len(r.pathParts), func(k int) bool { return bindsAt(r.pathParts, k, r.hasCustomVerb) && nameAt(r.pathParts, k, r.hasCustomVerb) == n }) })
+// ... each to exactly the URL text it stands for
+//@ ensures V/vals: forallStr(func(n string) bool { return strMapHas(result, n) ==> exists(0, len(r.pathParts), func(k int) bool { return bindsAt(r.pathParts, k, r.hasCustomVerb) && nameAt(r.pathParts, k, r.hasCustomVerb) == n && result[n] == valueAt(r.pathParts, urlPath, k, r.hasCustomVerb) }) })
 //@ modifies nothing
 //@ nopanic
 //@ loop 0 invariant fresh: fresh(pathParameters) && pathParameters != nil && isTokens(urlParts, urlPath)
+//@ loop 0 invariant enough: len(urlParts) >= len(r.pathParts)
+//@ loop 0 invariant N/bound: forall(0, it_i, func(k int) bool { return bindsAt(r.pathParts, k, r.hasCustomVerb) ==> strMapHas(pathParameters, nameAt(r.pathParts, k, r.hasCustomVerb)) })
+//@ loop 0 invariant N/only: forallStr(func(n string) bool { return strMapHas(pathParameters, n) ==> exists(0, it_i, func(k int) bool { return bindsAt(r.pathParts, k, r.hasCustomVerb) && nameAt(r.pathParts, k, r.hasCustomVerb) == n }) })
+//@ loop 0 invariant V/vals: forallStr(func(n string) bool { return strMapHas(pathParameters, n) ==> exists(0, it_i, func(k int) bool { return bindsAt(r.pathParts, k, r.hasCustomVerb) && nameAt(r.pathParts, k, r.hasCustomVerb) == n && pathParameters[n] == valueAt(r.pathParts, urlPath, k, r.hasCustomVerb) }) })
 
 //@ func NewRequest
 //@ props C01 C04 C06 C19
